@@ -139,7 +139,7 @@ class RangeNode(OperandNode):
         return self.tvalue
 
     def full_address(self, context):
-        addr = self.address
+        addr = self.address.replace('$', '')
         if '!' not in addr:
             addr = f'{context.sheet}!{addr}'
         return addr
